@@ -3,6 +3,7 @@ import Xo.Lemmas.Path
 import Xo.Lemmas.RefGraphOps
 import Xo.Lemmas.PathPart
 import Xo.Lemmas.Copy
+import Xo.Lemmas.ArrayKeep
 /-! C10 — assigning one element changes that element and nothing else (property theorems only).
 Byte level, for every memory and every slot address: the assignment of a scalar or of a fitting string rewrites exactly the
 slot's bytes; combined with read locality (`C01_read_local`: a part's value depends only on the bytes of its own extent) every
@@ -196,5 +197,34 @@ example : readD (.struct [.scalar 8, .array (.scalar 4) [some 2] [0], .string])
         (apply (shift 5 (patchesD (.struct [.scalar 8, .array (.scalar 4) [some 2] [0], .string])
           (.struct [.bits 1, .arr [2] [.bits 5, .bits 6], .str [97, 98]]))) (List.replicate 64 0xA5)) (5 + 16)) 5
       = .struct [.bits 1, .arr [2] [.bits 7, .bits 8], .str [97, 98]] := rfl
+
+/-- **a whole-array assignment of ANY fitting size reads back as the assigned value** (`Array._update`, model `Lay.updateArr` -
+executed against the library on every whole-array assignment): the value may need fewer bytes than the instance has (dynamically
+sized items that became shorter); the instance keeps its size word, and a view of the array reads exactly the assigned items in
+the assigned shape.  With `C11_array_update_frame` (nothing outside the instance changes) and read locality (`C01_read_local`)
+every other element of an enclosing object reads as before.  `rt_array_keep`: the view never reads the first header word. -/
+theorem C10_array_update_value (it : Ty) (shape : List (Option Nat)) (order : List Nat) (m m' : Mem) (addr : Nat)
+    (sh : List Nat) (items : List Val) (hwf : (Ty.array it shape order).WF) (hc : Conf (.array it shape order) (.arr sh items))
+    (hsz : vsize (.array it shape order) (.arr sh items) < 2^64)
+    (hb : addr + (if (ainfo it shape).staticShape && (ainfo it shape).staticType
+                  then vsize (.array it shape order) (.arr sh items) else fromLE (readAt m addr 8)) ≤ m.length)
+    (h : updateArr it shape order m addr (.arr sh items) = .ok m') :
+    readD (.array it shape order) m' addr = (Val.arr sh items).norm := by
+  unfold updateArr at h
+  by_cases hd : ((ainfo it shape).staticShape && (ainfo it shape).staticType) = true
+  · simp only [hd, ↓reduceIte] at h hb
+    split at h
+    · cases h
+    · injection h with h; subst h
+      exact rtD _ _ hwf hc hsz m addr hb _ (fun _ _ _ => rfl)
+  · have hd' : ((ainfo it shape).staticShape && (ainfo it shape).staticType) = false := by simpa using hd
+    simp only [hd', Bool.false_eq_true, ↓reduceIte] at h hb
+    split at h
+    · cases h
+    · split at h
+      · cases h
+      · rename_i _ hfit
+        injection h with h; subst h
+        exact rt_array_keep it shape order sh items hwf hc hsz hd' _ m addr (by omega) _ (fun _ _ _ => rfl)
 
 end Lay
